@@ -102,15 +102,18 @@ impl Bitmap {
 //@|         forall|j: int| 0 <= j < 65536 && j != page_id.0 ==> final(self).bit(j) == old(self).bit(j),
 //@end
 
-    //@trusted find_free_in_range: contract of Bitmap::find_free_in_range — `(start..end).find(|&id| !self.get_bit(id))` is an iterator adapter over a closure, which Verus cannot ingest; the contract (least clear bit in [start, end), or None) is discharged from the real body by the Kani harness c18_find_free_window (bounded window)
-    #[verifier::external_body]
-    pub fn find_free_in_range(&self, start: u64, end: u64) -> (r: Option<u64>)
-        requires end <= 65536
-        ensures
-            r is Some ==> start <= r->Some_0 < end && !self.bit(r->Some_0 as int)
-                && forall|j: int| start <= j < r->Some_0 ==> self.bit(j),
-            r is None ==> forall|j: int| start <= j < end ==> self.bit(j),
-    { unimplemented!() }
+// C18.pager.find_free.spec - least clear bit of [start, end), or None; proved from the real body.
+// Rule R13 (stated in DESIGN 2.2): `(A..B).find(|&X| P)` in tail position is rewritten to the loop that
+// core::iter::Iterator::find performs on a Range<u64> - ids A, A+1, .. B-1 in order, the first one for which
+// the closure is true is returned, None when the range is exhausted.  The closure body P is the repo's text.
+//@extract nervusdb-storage/src/pager.rs Bitmap::find_free_in_range ret r
+//@| requires end <= 65536
+//@| ensures
+//@|     r is Some ==> start <= r->Some_0 < end && !self.bit(r->Some_0 as int)
+//@|         && forall|j: int| start <= j < r->Some_0 ==> self.bit(j),
+//@|     r is None ==> forall|j: int| start <= j < end ==> self.bit(j),
+//@preregex "(?m)^(\s*)\(([^()\n]+?)\.\.([^()\n]+?)\)\.find\(\|&(\w+)\|\s*([^\n]*)\)\s*$" => "\1let r13_a: u64 = \2; let r13_b: u64 = \3; let mut r13_i: u64 = r13_a;\n\1while r13_i < r13_b\n\1    invariant r13_a == (\2), r13_b == (\3), r13_a <= r13_i, r13_i <= r13_b || r13_i == r13_a, r13_b <= 65536, forall|j: int| r13_a <= j < r13_i ==> self.bit(j),\n\1    decreases r13_b - r13_i,\n\1{\n\1    let \4 = r13_i;\n\1    if \5 { return Some(\4); }\n\1    r13_i = r13_i + 1;\n\1}\n\1None"
+//@end
 
 } // impl Bitmap
 
